@@ -32,6 +32,7 @@ inductive Err where
   | assertion    -- AssertionError
   | indexError   -- IndexError / KeyError
   | structure    -- the two layouts do not have the same (dim, depth) structure: outside the model
+  | notImplemented  -- NotImplementedError ("This memref layout type is not handled yet.")
   | fuel
 deriving DecidableEq, Repr, Inhabited
 
@@ -39,10 +40,11 @@ inductive Layout where
   | none
   | strided (strides : List (Option Nat)) (offset : Option Nat)
   | tsl (t : Tsl)
+  | other        -- any other layout attribute (e.g. an affine map)
 deriving DecidableEq, Repr, Inhabited
 
-/-- memref type: shape (`none` = dynamic `?`), element size in bytes (`FixedBitwidthType.size`),
-whether the element type is an `IntegerType`, layout. -/
+/-- memref type: shape (`none` = dynamic `?`), element size in bytes (`FixedBitwidthType.size`; 0 stands for an
+element type that is not a `FixedBitwidthType`, i.e. `index`), whether the element type is an `IntegerType`, layout. -/
 structure MemTy where
   shape : List (Option Nat)
   el : Nat
@@ -97,6 +99,7 @@ def extractStrides (t : MemTy) : Option (List (Option Nat)) :=
   | .strided s _ => some s
   | .none => some (rowMajor t.shape.tail)
   | .tsl _ => none
+  | .other => none
 
 def extractOffset (t : MemTy) : Option Nat :=
   match t.layout with
@@ -113,6 +116,7 @@ def shapeTileBounds (shape : List (Option Nat)) : List (List (Option Nat)) :=
 def tslOf (t other : MemTy) (srcShape : List (Option Nat)) : Except Err Tsl :=
   match t.layout with
   | .tsl l => .ok l
+  | .other => .error .notImplemented
   | _ =>
     match extractStrides t with
     | none => .error .noMatch
@@ -146,18 +150,23 @@ def nextCur (s : Stride) : Option Nat :=
   | some a, some b => some (a * b)
   | _, _ => none
 
-/-- the `while True` loop; returns the members in the order they were found (innermost first). -/
-def lcbLoop : Nat → List Entry → Option Nat → List Entry → Except Err (List Entry)
+/-- the `while True` loop; returns the members in the order they were found (innermost first) and the strides
+that were not taken (`self_strides` at exit), in their original order. -/
+def lcbLoop : Nat → List Entry → Option Nat → List Entry → Except Err (List Entry × List Entry)
   | 0, _, _, _ => .error .fuel
   | fuel + 1, l, cur, acc =>
     match findStep cur l with
-    | none => .ok acc
+    | none => .ok (acc, l)
     | some e =>
       if e.ss = e.ds then lcbLoop fuel (l.erase e) (nextCur e.ss) (acc ++ [e])
-      else .ok acc
+      else .ok (acc, l)
+
+/-- `largest_common_contiguous_block_keys` (fix F21): the members by position, and the other positions. -/
+def lcbSplit (flat : List Entry) : Except Err (List Entry × List Entry) :=
+  lcbLoop (flat.length + 1) flat (some 1) []
 
 def lcbMembers (flat : List Entry) : Except Err (List Entry) :=
-  lcbLoop (flat.length + 1) flat (some 1) []
+  (lcbSplit flat).map (·.1)
 
 def defaultLcb : List Stride := [⟨some 1, some 1⟩]
 
@@ -305,14 +314,33 @@ def sortDesc (l : List Entry) : List Entry := l.foldr insDesc []
 
 def Entry.triple (e : Entry) : Nat × Nat × Nat := (e.bound, e.sstep, e.dstep)
 
-/-- `stride not in lcb` (by value, `Stride.__eq__`) -/
+/-- BEFORE fix F21 (finding D41): `stride not in lcb` (by value, `Stride.__eq__`) -/
 def remaining (lcb : List Stride) (flat : List Entry) : List Entry :=
   flat.filter fun e => !lcb.contains e.ss
 
-/-- steps 4–6 given the flat entries (dims ascending, depths ascending), the LCB, the pointers after
+/-- `stride in lcb and stride.bound == 1` -/
+def unitCovered (lcb : List Stride) (e : Entry) : Bool := lcb.contains e.ss && e.ss.bound == some 1
+
+/-- WITH fix F21: `key not in lcb_keys and not (stride in lcb and stride.bound == 1)`; `rest` = the positions
+that are not members, in order. -/
+def remainingByKey (lcb : List Stride) (rest : List Entry) : List Entry :=
+  rest.filter fun e => !unitCovered lcb e
+
+/-- step 6.2, literally: the innermost `scf.for` runs to `upper[-1]`; then for `i = 0 .. n-2` the nest so far is
+wrapped into a loop to `upper[n - 2 - i]`. The nest is represented by its trip counts, outermost first. -/
+def wrapLoops (upper : List Nat) : List Nat :=
+  (List.range (upper.length - 1)).foldl (fun nest i => upper.getD (upper.length - 2 - i) 0 :: nest) [upper.getLastD 0]
+
+/-- steps 5/6: no loop at all if nothing remains after the 2-D repeat dimension; otherwise the nest of step 6.2 and,
+step 6.3, the `i`-th loop from outside advances the pointers by the steps of `remaining_strides_list[i]`. -/
+def buildLoops (rest : List Entry) : List (Nat × Nat × Nat) :=
+  if rest.isEmpty then []
+  else List.zipWith (fun b (e : Entry) => (b, e.sstep, e.dstep)) (wrapLoops (rest.map (·.bound))) rest
+
+/-- steps 4–6 given the remaining strides (dims ascending, depths ascending), the LCB, the pointers after
 offset application and the total size in bytes. -/
-def build (el sbase dbase total : Nat) (lcb : List Stride) (flat : List Entry) : Except Err DmaProg :=
-  match sortDesc (remaining lcb flat) with
+def build (el sbase dbase total : Nat) (lcb : List Stride) (rem : List Entry) : Except Err DmaProg :=
+  match sortDesc rem with
   | [] => .ok ⟨sbase, dbase, [], .oneD total⟩
   | h :: rest =>
     match lcb.getLast? with
@@ -320,7 +348,7 @@ def build (el sbase dbase total : Nat) (lcb : List Stride) (flat : List Entry) :
     | some last =>
       match last.bound, last.step with
       | some lb, some ls =>
-        .ok ⟨sbase, dbase, rest.map Entry.triple, .twoD (lb * ls * el) h.sstep h.dstep h.bound⟩
+        .ok ⟨sbase, dbase, buildLoops rest, .twoD (lb * ls * el) h.sstep h.dstep h.bound⟩
       | _, _ => .error .assertion
 
 /-! ### resolution of both layouts against the descriptors -/
@@ -359,18 +387,20 @@ structure Lowered where
   prog : DmaProg
 deriving DecidableEq, Repr
 
-/-- steps 2–6 on the resolved entries: LCB, remaining strides, program. -/
-def lowerResolved (el sb db : Nat) (shape : List Nat) (nested : List (List Entry)) :
+/-- steps 2–6 on the resolved entries: LCB, remaining strides, program. `byValue = true` is the code before fix
+F21 (membership in the LCB decided by Stride value), `false` the code with F21 (by position). -/
+def lowerResolved (byValue : Bool) (el sb db : Nat) (shape : List Nat) (nested : List (List Entry)) :
     Except Err (List Stride × DmaProg) :=
-  match lcbMembers nested.flatten with
+  match lcbSplit nested.flatten with
   | .error e => .error e
-  | .ok mem =>
-    match build el sb db (totalBytes shape el) (lcbOfMembers mem) nested.flatten with
+  | .ok mr =>
+    match build el sb db (totalBytes shape el) (lcbOfMembers mr.1)
+        (if byValue then remaining (lcbOfMembers mr.1) nested.flatten else remainingByKey (lcbOfMembers mr.1) mr.2) with
     | .error e => .error e
-    | .ok p => .ok (lcbOfMembers mem, p)
+    | .ok p => .ok (lcbOfMembers mr.1, p)
 
 /-- `TransformDMA.match_and_rewrite` evaluated on descriptors `rs`, `rd`. -/
-def transformDma (src dst : MemTy) (rs rd : Rt) : Except Err Lowered :=
+def transformDma (byValue : Bool) (src dst : MemTy) (rs rd : Rt) : Except Err Lowered :=
   if src.shape != dst.shape || src.el != dst.el || src.isInt != dst.isInt || !src.isInt then .error .noMatch else
   match tslOf src dst src.shape with
   | .error e => .error e
@@ -381,24 +411,27 @@ def transformDma (src dst : MemTy) (rs rd : Rt) : Except Err Lowered :=
       match resolve src dst tS tD rs rd with
       | .error e => .error e
       | .ok nested =>
-        match lowerResolved src.el (applyOffset rs.base src.el tS.offset rs.offset)
+        match lowerResolved byValue src.el (applyOffset rs.base src.el tS.offset rs.offset)
             (applyOffset rd.base dst.el tD.offset rd.offset) rs.shape nested with
         | .error e => .error e
         | .ok r => .ok ⟨tS, tD, nested, r.1, r.2⟩
 
 /-- `MatchSimpleCopy`: both layouts absent → one 1-D transfer of `Π dims · element size` bytes. -/
 def simpleCopy (src dst : MemTy) (rs rd : Rt) : Except Err DmaProg :=
+  -- `assert isa(op.source.type, MemRefType[FixedBitwidthType])` comes before the layout test
+  if src.el == 0 then .error .assertion else
   match src.layout, dst.layout with
   | .none, .none =>
-    if src.shape != dst.shape || src.el != dst.el || src.isInt != dst.isInt then .error .assertion
+    -- rank 0: `assert total_size_op is not None` in get_total_size_op
+    if src.shape != dst.shape || src.el != dst.el || src.isInt != dst.isInt || src.shape.isEmpty then .error .assertion
     else .ok ⟨rs.base, rd.base, [], .oneD (totalBytes rs.shape src.el)⟩
   | _, _ => .error .noMatch
 
 /-- the whole pass on one `memref.copy`. -/
-def lowerCopy (src dst : MemTy) (rs rd : Rt) : Except Err DmaProg :=
+def lowerCopy (byValue : Bool) (src dst : MemTy) (rs rd : Rt) : Except Err DmaProg :=
   match simpleCopy src dst rs rd with
   | .ok p => .ok p
-  | .error .noMatch => (transformDma src dst rs rd).map (·.prog)
+  | .error .noMatch => (transformDma byValue src dst rs rd).map (·.prog)
   | .error e => .error e
 
 /-! ### the layout-defined address (specification side) -/
